@@ -136,7 +136,7 @@ var focusTable = map[string]focusEntry{
 	"Reader.offset":          fe("reader", "", "Reader.Offset", "Reader.SetOffset", "Reader.ReadMessage", "Reader.FetchMessage"),
 	"Reader.lag":             fe("reader", "", "Reader.Lag", "Reader.ReadMessage", "Reader.FetchMessage"),
 	"Reader.closed":          fe("reader", "", "Reader.Close", "Reader.ReadMessage", "Reader.SetOffset"),
-	"Reader.version":         fe("reader", "", "Reader.SetOffset", "Reader.ReadMessage", "Reader.FetchMessage"),
+	"Reader.version":         fe("reader", "readerversion", "Reader.SetOffset", "Reader.ReadMessage", "Reader.FetchMessage"),
 	"Reader.stats":           fe("reader", "", "Reader.Stats", "Reader.ReadMessage", "Reader.FetchMessage"),
 	"Transport.pools":        fe("transport", "", "Transport.CloseIdleConnections", "Transport.RoundTrip", "Client.Metadata"),
 	"gzip.Codec.writerPool":  fe("codecs", "", "gzip.Codec.NewWriter"),
@@ -243,6 +243,8 @@ func runProgram(p *program) []string {
 	return nil
 }
 
+var debugTiming = os.Getenv("C10_DEBUG") != ""
+
 func main() {
 	scenName := flag.String("scenario", "", "scenario name")
 	seed := flag.Int64("seed", 1, "PRNG seed")
@@ -251,6 +253,12 @@ func main() {
 	list := flag.Bool("list", false, "list the scenarios")
 	flag.Parse()
 
+	// the files register in alphabetical order: list in priority order
+	order := map[string]int{}
+	for i, n := range []string{"balancers", "codecs", "pagebuf", "batcherr", "connoffset", "readerversion", "batch", "conn", "writer", "reader", "transport"} {
+		order[n] = i
+	}
+	sort.SliceStable(scenarios, func(i, j int) bool { return order[scenarios[i].name] < order[scenarios[j].name] })
 	if *list {
 		for _, s := range scenarios {
 			fmt.Println(s.name)
@@ -295,7 +303,11 @@ func main() {
 	methods := map[string]bool{}
 	for time.Since(t0) < *dur {
 		p := scen.gen(r, fc)
+		tp := time.Now()
 		extra := runProgram(p)
+		if debugTiming {
+			fmt.Fprintf(os.Stderr, "c10: program %d took %v\n", programs+1, time.Since(tp))
+		}
 		programs++
 		nops := 0
 		used := map[string]bool{}
